@@ -54,6 +54,11 @@ Val(op, a) == fn[<<op, a>>]
 MadeBy(op, r) == <<op, r>> \in DOMAIN inv
 ArgsOf(op, r) == inv[<<op, r>>]
 
+\* what a constructor made: its result - for EncPub together with the curve of the key: the compressed bytes of a point do
+\* not say which curve it is on (an X that is an abscissa of both curves has the same 33 bytes on both)
+PubCurve(p) == IF Known("CurveOf", <<p>>) THEN Val("CurveOf", <<p>>).res ELSE "?"
+Made(e) == IF e.op = "EncPub" THEN <<e.res, PubCurve(e.args[1])>> ELSE e.res
+
 IsAlt(x) == x \in DOMAIN alt
 \* every recorded decoding of the source of a mangled value, whatever the parameter
 DecodingsOfSource(op, x) == {fn[k].res : k \in {k \in DOMAIN fn : k[1] = op /\ k[2][1] = alt[x].src /\ fn[k].ok}}
@@ -61,7 +66,7 @@ DecodingsOfSource(op, x) == {fn[k].res : k \in {k \in DOMAIN fn : k[1] = op /\ k
 General(e) ==
     NameIf(~e.panic, "NoPanic")
     \cup NameIf(Known(e.op, NArgs(e)) => Val(e.op, NArgs(e)) = Ans(e), "Deterministic")
-    \cup NameIf(e.op \in Constructors /\ e.ok /\ MadeBy(e.op, e.res) => ArgsOf(e.op, e.res) = NArgs(e), "Injective")
+    \cup NameIf(e.op \in Constructors /\ e.ok /\ MadeBy(e.op, Made(e)) => ArgsOf(e.op, Made(e)) = NArgs(e), "Injective")
 
 \* Dec of something an encoder made from `orig': `match' says whether the parameters of this call are those of the encoder
 RT(e, orig, match, nameRefused, nameWrong, nameAccepted) ==
@@ -97,10 +102,8 @@ CallChecks(e) ==
       [] e.op = "Sign"    -> NameIf(e.ok, "SignFails")
       [] e.op = "DecPub"  ->
            NameIf(e.ok => e.rcurve = e.args[2], "KeyOnCurveAsked")
-           \cup (IF MadeBy("EncPub", x) /\ Known("CurveOf", <<ArgsOf("EncPub", x)[1]>>)
-                 THEN LET p == ArgsOf("EncPub", x)[1]  c == Val("CurveOf", <<p>>).res IN
-                      IF c = e.args[2] THEN NameIf(e.ok /\ e.res = p, "PubRoundTrip")
-                      ELSE NameIf(e.ok => e.res # p, "PubRoundTrip")
+           \cup (IF MadeBy("EncPub", <<x, e.args[2]>>)      \* the key of THIS curve that was encoded to these bytes
+                 THEN NameIf(e.ok /\ e.res = ArgsOf("EncPub", <<x, e.args[2]>>)[1], "PubRoundTrip")
                  ELSE {})
            \cup Mangled(e, "DecPub", x)
       [] e.op = "DecPriv" ->
@@ -142,7 +145,7 @@ Step ==
                 /\ LET f1 == Upd(fn, <<e.op, NArgs(e)>>, Ans(e)) IN
                    \* the curve a public key value lives on is part of what is known about it
                    fn' = IF e.ok /\ e.op \in {"PubOf", "DecPub"} THEN Upd(f1, <<"CurveOf", <<e.res>>>>, [ok |-> TRUE, res |-> e.rcurve]) ELSE f1
-                /\ inv' = IF e.ok /\ e.op \in Constructors THEN Upd(inv, <<e.op, e.res>>, NArgs(e)) ELSE inv
+                /\ inv' = IF e.ok /\ e.op \in Constructors THEN Upd(inv, <<e.op, Made(e)>>, NArgs(e)) ELSE inv
                 /\ UNCHANGED <<alt, norm>>
            [] e.event = "addr" -> Report(l, AddrChecks(e), [op |-> "addr", how |-> ""]) /\ UNCHANGED <<fn, inv, alt, norm>>
            [] e.event = "sweep" -> Report(l, SweepChecks(e), [op |-> e.op, how |-> "every-single-change"]) /\ UNCHANGED <<fn, inv, alt, norm>>
